@@ -114,6 +114,8 @@ impl Parser for MarkdownParser {
                             line: starting_line_number,
                         });
                     }
+                    // a code block ends the paragraph in front of it
+                    title_paragraph.clear();
                 }
                 MarkdownToken::TestCodeBlock {
                     language: _,
